@@ -65,15 +65,17 @@ TEXT.update({
         design_ref='6.20', level_note=LOOP_NOTE),
 })
 
-CONV_NOTE = ('Trusted: Verus/Z3/rustc; the assembler (E1-E5, N1, N3 and the token weave); assumed contracts on std (sort keeps length, extend/count, HashMap::get_mut, hash key models); '
-             'E5 accessors for the two lazy_static tables; format! output opaque. OUT OF REACH and trusted: serde_json parsing of the bytes and parse_layout_from_json (serde_json::Value) - the claim starts at the '
-             'fancy_keys AST; file I/O.')
+CONV_NOTE = ('Trusted: Verus/Z3/rustc; the assembler (E1-E6, N1, N3, N5 and the token weave); assumed contracts on std (sort leaves an ascending permutation, Vec::extend appends, Chars::count, HashMap::get_mut, hash key models, FromSet keys equal iff equal contents); '
+             'E5 accessors for the two lazy_static tables; format! output opaque. Front end: the parse_* functions are verified against ASSUMED declarations of serde_json::{Value, Map, Number} (spec/json_stub.rs), an assumed contract of has_exactly_keys, and five functions represented by their signatures (E6). '
+             'OUT OF REACH and trusted: serde_json parsing of the bytes (from_reader) and the file I/O.')
 TEXT.update({
     'C14': dict(
-        technique='deductive verification (Verus): panic-freedom of every function of fancy_layout_interpreting.rs and key_transforms.rs + convert ensures the mapper precondition + verified load-then-run client',
+        technique='deductive verification (Verus): panic-freedom of every function of fancy_layout_interpreting.rs and key_transforms.rs and of the parse_* functions of layout_parsing_formatting.rs + convert ensures the mapper precondition + verified load-then-run client; a bounded run of the whole real load path stands next to it for the parts that are assumed',
         level_text=('Proof, unbounded, for the converter and the mapper: Verus proves for the real text of both files that no panic!, out-of-bounds index, arithmetic overflow or unwrap of None is reachable '
                     '(all converter inputs; all layouts satisfying layout_ok, all mapper states satisfying the invariant, all events); convert ensures r is Ok ==> layout_ok(r); a verified client feeds the result '
-                    'of convert to the universal mapper client for every operation sequence. The JSON/serde front end is outside the reach of the verifier and is trusted, which the level note says.'),
+                    'of convert to the universal mapper client for every operation sequence. The JSON front end: the 36 parse_* functions of layout_parsing_formatting.rs are verified for the same implicit obligations (every unwrap, slice range, index, subtraction; has_at_least_keys ensures the members the unwraps rely on) '
+                    'against assumed declarations of serde_json (Value / Map / Number: get is Some exactly when contains_key), an assumed contract of has_exactly_keys and five functions represented by their signatures only (format_mapping, mapping_all_used_aliases, keys_string, parse_row, parse_key_code); '
+                    'serde_json\'s text parser and the file I/O are outside. Bounded, never counted as proof: 250,000 (quick) seeded inputs through the whole real load path, mapper and loop on every run (extra loader_fuzz_bounded).'),
         design_ref='6.14', level_note=CONV_NOTE + ' ' + MAPPER_NOTE),
     'C13': dict(
         technique='deductive verification (Verus): functional contracts on the converter (convert_row_to, find_right_shift, from_modifiers, reify_modifiers, build_combinations, the combination iterators, convert_single, convert_row, convert_alias, convert_mapping, FromSet::new, adjust_repeats, convert) on the real code, against statement-level spec functions; the two tables by complete enumeration',
